@@ -52,7 +52,7 @@ structure Obs where
 inductive Clause
   | rejectedFirst | returnedExists | returnedAllowed | forbiddenByName | grantedAllowed | grantNeedsMatch
   | orderIndependent | joinedAllowed | attributedWithoutCredential
-  | createdAllowed | changedAllowed | lookupNamed
+  | createdAllowed | changedAllowed | lookupNamed | responseShape | secondaryAllowed
   deriving DecidableEq, Repr
 
 def Clause.name : Clause → String
@@ -68,6 +68,8 @@ def Clause.name : Clause → String
   | .createdAllowed => "created_object_is_allowed"
   | .changedAllowed => "changed_objects_allowed"
   | .lookupNamed => "lookup_returns_the_named_object"
+  | .responseShape => "response_has_the_shape_of_the_request"
+  | .secondaryAllowed => "secondary_objects_allowed"
 
 /-- "rejected": the request failed.  Which error object or message the code uses for it is not part of the
     property (the model's `Err.permission` is finer than what is observed). -/
@@ -126,6 +128,13 @@ def specAuthCN (cn : String) (attributed : Option AUser) : Option Clause :=
   | none => none
   | some u => if u.clientCN == cn then none else some .attributedWithoutCredential
 
+/-- … and only of a certificate the TLS layer VERIFIED: a connection whose peer merely claims an identity carries no
+    user. -/
+def specConnUser (identity : String) (authenticated : Bool) (attributed : Option AUser) : Option Clause :=
+  match attributed with
+  | none => none
+  | some u => if authenticated && u.clientCN == identity then none else some .attributedWithoutCredential
+
 /-- The property for a bare permission check: granted only if some entry matches. -/
 def specGrant (u : User) (perm : String) (granted : Bool) : Option Clause :=
   if perm == "" then none
@@ -137,6 +146,20 @@ def specChanged (u : User) (perm : String) (changed : List Obj) : Option Clause 
   if perm == "" then none
   else if !someMatch u perm then (if changed.isEmpty then none else some .rejectedFirst)
   else if changed.any (fun o => !allowedB u perm o) then some .changedAllowed
+  else none
+
+/-- "can act on an object only if …", for requests that act on more than they address (cascading delete, schedule-downtime
+    with all_services): `targets` are the objects the handler obtained for the request, `acted` every object of the whole
+    inventory that was deleted / got a downtime, `deps t` the objects that go with `t` in the registry (the services of a
+    host).  All objects acted on must be allowed under the permission the request requires.  A forbidden object that is a
+    dependent of a target (and not a target itself) is reported under a clause of its own, any other forbidden object —
+    a target, or an object that has nothing to do with the targets — under `changed_objects_allowed`. -/
+def specActed (u : User) (perm : String) (deps : Obj → List Obj) (targets acted : List Obj) : Option Clause :=
+  let isDep (o : Obj) : Bool := !targets.contains o && targets.any (fun t => (deps t).contains o)
+  if perm == "" then none
+  else if !someMatch u perm then (if acted.isEmpty then none else some .rejectedFirst)
+  else if acted.any (fun o => !isDep o && !allowedB u perm o) then some .changedAllowed
+  else if acted.any (fun o => isDep o && !allowedB u perm o) then some .secondaryAllowed
   else none
 
 /-- The by-name lookup of execute-command (endpoint, command, user, notification): whatever it hands out is the
@@ -173,6 +196,43 @@ def sameOutcome : Except Err (List Obj) → Except Err (List Obj) → Bool
     names of a plural list permuted has the same outcome. -/
 def specOrder (r1 r2 : Except Err (List Obj)) : Option Clause :=
   if sameOutcome r1 r2 then none else some .orderIndependent
+
+/-! ### Whole traces: every request is judged against the user and the inventory of ITS OWN moment -/
+
+/-- The property for one request of any entry point. -/
+def specRequest (u : User) (inv : Inventory) : Request → Response → Option Clause
+  | .targets qd q, .targets res log => specQuery u qd q inv ⟨res, some log⟩
+  | .object verb type pn q, .targets res log => specQuery u (handlerQD verb type) (handlerQuery type pn q) inv ⟨res, some log⟩
+  | .action name types q, .targets res log => specQuery u (actionQDT name types) q inv ⟨res, some log⟩
+  | .modify type _ _, .changed objs =>
+    if objs.any (fun o => !inv.contains o) then some .returnedExists else specChanged u ("objects/modify/" ++ type) objs
+  | .lookup t n, .found o => specLookup u t n inv o
+  | .join j, .granted b => specJoin u j b
+  | .access perm o, .granted b => specAccess u perm o b
+  | .bare perm, .granted b => specGrant u perm b
+  | _, _ => some .responseShape
+
+/-- The first violated clause of a trace; permissions revoked or granted and objects created or deleted between two
+    requests count from the next request on, whatever was answered before. -/
+def specTrace (events : List Event) : Option Clause :=
+  events.findSome? fun e => specRequest e.world.user e.world.inv e.request e.response
+
+/-! ### Declarative meaning of a RAW permission pattern (for `raw_mask_match_spec`) -/
+
+/-- The character is neither a wildcard nor the start of one of the two escapes `\*`, `\?` (a lone `\` is ordinary). -/
+def Ordinary (c : Char) (m : List Char) : Prop :=
+  c ≠ '*' ∧ c ≠ '?' ∧ ¬ (c = '\\' ∧ ∃ x rest, m = x :: rest ∧ (x = '*' ∨ x = '?'))
+
+/-- `DenotesMask m s`: the text `s` is in the language of the raw mask `m` — `\*` stands for the character `*`, `\?` for
+    `?`, `*` for any (possibly empty) text, `?` for exactly one character, every other character for itself up to ASCII
+    case. -/
+inductive DenotesMask : List Char → List Char → Prop
+  | nil : DenotesMask [] []
+  | escStar {m s} : DenotesMask m s → DenotesMask ('\\' :: '*' :: m) ('*' :: s)
+  | escAny {m s} : DenotesMask m s → DenotesMask ('\\' :: '?' :: m) ('?' :: s)
+  | star (pre : List Char) {m s} : DenotesMask m s → DenotesMask ('*' :: m) (pre ++ s)
+  | any (d : Char) {m s} : DenotesMask m s → DenotesMask ('?' :: m) (d :: s)
+  | lit {c d : Char} {m s} : Ordinary c m → d.toLower = c.toLower → DenotesMask m s → DenotesMask (c :: m) (d :: s)
 
 /-! ### Declarative meaning of the wildcard language (for `wildcard_match_spec`) -/
 
